@@ -57,6 +57,35 @@ ALLOWED = {
 }
 
 
+PICKLER_CLASSES = {"pickle.Pickler", "pickle._Pickler", "cloudpickle.CloudPickler", "cloudpickle.Pickler", "cloudpickle.cloudpickle.CloudPickler"}
+
+
+def _resolved_call_name(call, f, repo):
+    fn = call.func
+    name = dotted(fn) or ""
+    if isinstance(fn, ast.Name):
+        r = repo.resolve_name(fn.id, f.module, f)
+        if r and r[0] == "ext":
+            name = r[1]
+    elif isinstance(fn, ast.Attribute):
+        r = repo.resolve_expr(fn, f.module, f)
+        if r and r[0] == "ext":
+            name = r[1]
+    return name
+
+
+def _memo_off(f, call):
+    """``<p> = <call>`` and ``<p>.fast = True`` both occur in f (the pickler's memo is disabled: the bytes depend on the
+    value of the payload only)."""
+    targets = {t.id for s in ast.walk(f.node) if isinstance(s, ast.Assign) and s.value is call for t in s.targets if isinstance(t, ast.Name)}
+    for s in ast.walk(f.node):
+        if isinstance(s, ast.Assign) and isinstance(s.value, ast.Constant) and s.value.value is True:
+            for t in s.targets:
+                if isinstance(t, ast.Attribute) and t.attr == "fast" and isinstance(t.value, ast.Name) and t.value.id in targets:
+                    return True
+    return False
+
+
 def _source_kind(call: ast.Call, f: FuncInfo, repo):
     fn = call.func
     name = dotted(fn) or ""
@@ -182,6 +211,16 @@ class NondetEval(Evaluator):
     def iter_tags(self, it, st):
         # iterating a set of strings visits its elements in hash order: whatever the loop accumulates is ordered by it
         return self._freeze(self.ev(it, st), getattr(it, "lineno", 0))
+
+    def side_effects(self, call, st):
+        # ``p = pickle.Pickler(buf, ...)``: what lands in ``buf`` is one memoising pickle (the identity structure of the
+        # payload leaks into the bytes) unless the memo is switched off (``p.fast = True``) in the same function
+        name = _resolved_call_name(call, self.f, self.ctx.repo)
+        if name in PICKLER_CLASSES:
+            buf = call.args[0] if call.args else next((k.value for k in call.keywords if k.arg == "file"), None)
+            if isinstance(buf, ast.Name) and not _memo_off(self.f, call):
+                return {buf.id: frozenset({f"src:pickle@{call.lineno}"})}
+        return {}
 
     def mutator_tags(self, call, st):
         tags = super().mutator_tags(call, st)
